@@ -10,12 +10,14 @@ on the class structure, validators and DEFAULTS tree regenerated from the source
                                AttributeError, world unchanged (for all names, all objects, all sub-objects, all states)
   * `method_names_rejected`    every callable attribute name (methods, dunder methods) is rejected (repo fix 3fc7703);
                                `private_slots_not_rejected`: witness that the regenerated list `others` is needed
-  * `update_unknown_name_rejected` the same through `update(name=v)` on a stable state
+  * `update_unknown_name_rejected` the same through `update(name=v)`, in every state (since repo fix cea5f08)
   * `rejected_setattr_keeps_world`  a rejected attribute assignment changes nothing, whatever was rejected
-  * `rejected_update_applies_earlier_keys`  witness: a rejected `update` is NOT atomic in the code
+  * `rejected_update_keeps_state`, `rejected_op_keeps_world`  a rejected update (any receiver, depth, keyword set) and
+                               every other rejected operation change nothing (updates: since repo fix cea5f08)
   * `styles_independent`, `objects_independent_of_history`, `style_object_assignment_ignored`
 -/
 import MagpyVerif.Lemmas.StyleState
+import MagpyVerif.Lemmas.StyleWF
 import MagpyVerif.Gen.StyleSchema
 
 namespace MagpyVerif.C20c
@@ -311,9 +313,45 @@ theorem private_slots_not_rejected :
   decide +kernel
 
 /-- **C20: invalid names are rejected through `update` as well.**  `obj.update(n=v)` for a name `n` (no underscore in it,
-so the magic notation leaves it alone) that is neither a property nor in `others`, on an object in a stable
-state (`obj.update()` changes nothing) whose `as_dict()` has no such key: AttributeError and the object is unchanged. -/
+so the magic notation leaves it alone) that is neither a property nor in `others`: in EVERY state of the object the call
+raises and the object is exactly as before.  (Since repo fix cea5f08 — `update` puts the instance dictionary back when
+the loop raises — no hypothesis on the state is needed; before it this was a theorem about stable states only.) -/
 theorem update_unknown_name_rejected (T : Tables) (props : List (Key × Schema)) (others : List Str) (cur : Dict)
+    (n : Str) (v : Option Val) (rno : Bool)
+    (hn : lookup (.str n) props = none) (ho : others.contains n = false) (hsep : '_' ∉ n) :
+    ∃ e, updateObj T props others cur none [(.str n, .leaf v)] true rno = (cur, .error e) := by
+  have hm := magicToDict_single '_' v n [] (by simpa using hsep)
+  simp only [joinWith, List.map_cons, List.map_nil, pathTree] at hm
+  rcases updateObj_cases T props others cur none [(.str n, .leaf v)] true rno with h | ⟨c, u, hc⟩
+  · exact h
+  · exfalso
+    -- the loop cannot succeed: the dictionary it runs over has the key `n`, which `__setattr__` rejects in every state
+    have hbad : ∀ (x : Tree) (c' : Dict), ∃ e, setAttr T props others c' (.str n) x = .error e := by
+      intro x c'
+      exact ⟨.attribute, by simp only [setAttr, hn, ho, Bool.false_eq_true, if_false]⟩
+    have hnd : ∃ x, lookup (.str n) (updLoop false rno cur [(.str n, .leaf v)]) = some x := by
+      rw [updLoop_single]
+      cases hl : lookup (.str n) cur with
+      | none =>
+        simp only [updVal, Option.isSome_none, isNoneOrMissing, Bool.true_or, if_true, Bool.not_false, Bool.or_true]
+        exact ⟨_, lookup_setKey_self _ _ _⟩
+      | some t =>
+        cases hu : updVal false rno (some t) (.leaf v) with
+        | none => exact ⟨t, hl⟩
+        | some r => exact ⟨r, lookup_setKey_self _ _ _⟩
+    obtain ⟨x, hx⟩ := hnd
+    obtain ⟨e, he⟩ := setAllS_error_of_mem T props others (.str n) x (hbad x) _ cur (mem_of_lookup hx)
+    simp only [updateObj, mergeDict, List.foldl_cons, List.foldl_nil, setKey, hm, Bool.not_true, updateNested, updDict] at hc
+    rcases hs : setAllS T props others cur (updLoop false rno cur [(.str n, .leaf v)]) with ⟨c2, r2⟩
+    rw [hs] at hc he
+    simp only [] at he
+    subst he
+    simp only [] at hc
+    cases hc
+
+/-- the exception is AttributeError when the state is stable (`obj.update()` changes nothing: then the loop reaches the
+unknown name; in an unstable state it could raise earlier on a property's own value) -/
+theorem update_unknown_name_attribute_error (T : Tables) (props : List (Key × Schema)) (others : List Str) (cur : Dict)
     (n : Str) (v : Option Val) (rno : Bool) (hst : Stable T props others cur) (hk : lookup (.str n) cur = none)
     (hn : lookup (.str n) props = none) (ho : others.contains n = false) (hsep : '_' ∉ n) :
     updateObj T props others cur none [(.str n, .leaf v)] true rno = (cur, .error .attribute) := by
@@ -326,13 +364,12 @@ theorem update_unknown_name_rejected (T : Tables) (props : List (Key × Schema))
 
 /-- … and on the regenerated classes the list `others` needs no mention: every assignable non-property name contains an
 underscore, so through `update` EVERY keyword without underscore that is not a property — every public method name
-among them — is rejected, for every class at any depth. -/
+among them — is rejected, for every class at any depth, in every state, and the object stays as it was. -/
 theorem update_rejects_every_non_property_name (o : Obj) (c : ClassInfo) (hc : classes[o.cls]? = some c) (path : List Key)
     (ps : List (Key × Schema)) (os : List Str) (sub : Dict)
     (hs : subObj c.schema.props c.schema.others o.tree path = some (ps, os, sub))
-    (n : Str) (v : Option Val) (rno : Bool) (hst : Stable tables ps os sub) (hk : lookup (.str n) sub = none)
-    (hn : lookup (.str n) ps = none) (hsep : '_' ∉ n) :
-    updateObj tables ps os sub none [(.str n, .leaf v)] true rno = (sub, .error .attribute) := by
+    (n : Str) (v : Option Val) (rno : Bool) (hn : lookup (.str n) ps = none) (hsep : '_' ∉ n) :
+    ∃ e, updateObj tables ps os sub none [(.str n, .leaf v)] true rno = (sub, .error e) := by
   have hok := nodeOk_of_subObj o c hc path ps os sub hs
   simp only [nodeOk, Bool.and_eq_true, List.all_eq_true] at hok
   have ho : os.contains n = false := by
@@ -342,7 +379,7 @@ theorem update_rejects_every_non_property_name (o : Obj) (c : ClassInfo) (hc : c
       exfalso
       have hmem : n ∈ os := List.contains_iff_mem.mp hcn
       exact hsep (List.contains_iff_mem.mp (hok.2 n hmem))
-  exact update_unknown_name_rejected tables ps os sub n v rno hst hk hn ho hsep
+  exact update_unknown_name_rejected tables ps os sub n v rno hn ho hsep
 
 /-- computed: the state at import time is stable, for the defaults and for a new style object of every class -/
 theorem initial_states_stable :
@@ -352,10 +389,10 @@ theorem initial_states_stable :
       | .error _ => false) = true := by
   decide +kernel
 
-/-- non-vacuity of `update_unknown_name_rejected`: `magpylib.defaults.update(colour=…)` at import time -/
+/-- non-vacuity of `update_unknown_name_attribute_error`: `magpylib.defaults.update(colour=…)` at import time -/
 example : updateObj tables props0 others0 resetResult.1 none [(.str "colour".toList, .leaf (some 8))] true false =
     (resetResult.1, .error .attribute) :=
-  update_unknown_name_rejected tables props0 others0 resetResult.1 "colour".toList (some 8) false
+  update_unknown_name_attribute_error tables props0 others0 resetResult.1 "colour".toList (some 8) false
     (stable_of_stableB _ _ _ _ initial_states_stable.1) (by decide +kernel) (by decide +kernel) (by decide +kernel) (by decide)
 
 /-! ### rejected operations and the state -/
@@ -392,21 +429,104 @@ theorem rejected_setattr_keeps_world (T : Tables) (Cs : List ClassInfo) (D : Tre
         rw [atPath_error_unchanged f hfp path _ _ _ e' hr]
         exact setTree_same w i o hw
 
-/-- **a rejected `update` is NOT atomic (witness; the code's loop `for k, v in new_dict.items(): setattr(self, k, v)`
-stops at the first exception).**  `magpylib.defaults.display.update(autosizefactor=5, backend="bogus")` raises
-AssertionError and leaves `autosizefactor == 5`; with an unknown name instead of the invalid value
-(`update(autosizefactor=5, bogus=1)`) AttributeError, and again `autosizefactor == 5`. -/
-theorem rejected_update_applies_earlier_keys :
-    let asf := [dk, .str "autosizefactor".toList]
-    let w := init []
+/-- a rejected in-place operation on an object that leaves the object as it was leaves the world as it was -/
+theorem onObj_rejected (Cs : List ClassInfo) (w : World) (i : Nat) (g : List (Key × Schema) → List Str → Dict → Dict × Except Kind Unit)
+    (hg : ∀ ps os c e, (g ps os c).2 = .error e → (g ps os c).1 = c) (e : Kind) (h : (onObj Cs w i g).2 = .err e) :
+    (onObj Cs w i g).1 = w := by
+  unfold onObj at h ⊢
+  cases hw : w[i]? with
+  | none => rfl
+  | some o =>
+    rw [hw] at h
+    simp only [] at h ⊢
+    cases hc : Cs[o.cls]? with
+    | none => rfl
+    | some c =>
+      rw [hc] at h
+      simp only [] at h ⊢
+      cases hr : (g c.schema.props c.schema.others o.tree).2 with
+      | ok u => rw [hr] at h; cases h
+      | error e' =>
+        rw [hg _ _ _ e' hr]
+        exact setTree_same w i o hw
+
+/-- **C20: a rejected `update` leaves the world identical** (true since repo fix cea5f08; before it the properties sorted
+before the offending one kept their new values — the former witness `rejected_update_applies_earlier_keys`).  For every
+world, every object (the defaults or an object's style), every sub-object at any depth as the receiver, every argument
+dictionary and keyword set in any notation, both flags: if `X.update(…)` raises — an invalid value, an unknown name, a
+bad key inside a nested dictionary, an alias with a bad value, a path that cannot be followed — nothing has changed.
+Every level is atomic: the receiver's own instance dictionary is put back (its old sub-objects with it), and nothing
+above the receiver is written at all (`atPath_error_unchanged`). -/
+theorem rejected_update_keeps_state (T : Tables) (Cs : List ClassInfo) (D : Tree) (w : World) (i : Nat) (path : List Key)
+    (arg : Option Tree) (kwargs : Dict) (mt rno : Bool) (e : Kind)
+    (h : (step T Cs D w (.update i path arg kwargs mt rno)).2 = .err e) :
+    (step T Cs D w (.update i path arg kwargs mt rno)).1 = w :=
+  onObj_rejected Cs w i _ (fun ps os c e' he => atPath_error_unchanged _
+    (fun ps' os' c' e'' => updateObj_error_unchanged T ps' os' c' arg kwargs mt rno e'') path ps os c e' he) e h
+
+def opIsReset : Op → Bool
+  | .reset => true
+  | _ => false
+
+/-- **every rejected operation leaves the world identical** — updates, assignments, `obj.style = …`,
+`display.style.reset()`, reads.  (`defaults.reset()` is excluded here: it is `self.display = None` followed by an update
+and so not all-or-nothing by construction, but it never raises: `reset_restores`.) -/
+theorem rejected_op_keeps_world (T : Tables) (Cs : List ClassInfo) (D : Tree) (w : World) (op : Op) (hr : opIsReset op = false)
+    (e : Kind) (h : (step T Cs D w op).2 = .err e) : (step T Cs D w op).1 = w := by
+  cases op with
+  | update i path arg kwargs mt rno => exact rejected_update_keeps_state T Cs D w i path arg kwargs mt rno e h
+  | setattr i path name val => exact rejected_setattr_keeps_world T Cs D w i path name val e h
+  | reset => cases hr
+  | resetStyle =>
+    refine onObj_rejected Cs w 0 _ (fun ps os c e' he => ?_) e h
+    unfold resetStyle at he ⊢
+    split at he
+    · exact atPath_error_unchanged _ (fun ps' os' c' e'' => updateObj_error_unchanged T ps' os' c' _ _ _ _ e'') _ ps os c e' he
+    · rfl
+  | setStyle i val =>
+    by_cases hi : i = 0
+    · simp only [step, hi, if_true]
+    · simp only [step, hi, if_false] at h ⊢
+      cases val with
+      | leaf v =>
+        cases v with
+        | none => exact onObj_rejected Cs w i _ (fun ps os c e' => updateObj_error_unchanged T ps os c _ _ _ _ e') e h
+        | some n => rfl
+      | node kv => exact onObj_rejected Cs w i _ (fun ps os c e' => updateObj_error_unchanged T ps os c _ _ _ _ e') e h
+  | setStyleObj i j =>
+    simp only [step]
+    split
+    · rfl
+    · split
+      · split
+        · split <;> rfl
+        · rfl
+      · rfl
+  | read i path =>
+    simp only [step]
+    split
+    · rfl
+    · split
+      · rfl
+      · split <;> rfl
+
+/-- non-vacuity (the reproducers of the repaired finding): `defaults.display.update(autosizefactor=5, backend="tail")`
+raises AssertionError, `update(autosizefactor=5, bogus=1)` AttributeError, `cuboid.style.magnetization.update(size=2,
+mode="bogus")` — the deprecated alias next to an invalid value — AssertionError; the trees are what they were; and the
+same first keyword alone is accepted and changes the tree -/
+example :
+    let w := init [1]
+    let mag : Key := .str "magnetization".toList
     let r1 := step tables classes defaults w (.update 0 [dk] none [(.str "autosizefactor".toList, .leaf (some 4)), (.str "backend".toList, .leaf (some 41))] true false)
     let r2 := step tables classes defaults w (.update 0 [dk] none [(.str "autosizefactor".toList, .leaf (some 4)), (.str "bogus".toList, .leaf (some 8))] true false)
-    let get := fun (w : World) => (w[0]?.map fun o => getPath (.node o.tree) asf).join
+    let r3 := step tables classes defaults w (.update 1 [mag] none [(.str "size".toList, .leaf (some 15)), (.str "mode".toList, .leaf (some 44))] true false)
+    let r4 := step tables classes defaults w (.update 0 [dk] none [(.str "autosizefactor".toList, .leaf (some 4))] true false)
+    let same := fun (a b : World) (i : Nat) => match a[i]?, b[i]? with | some x, some y => beqKids x.tree y.tree | _, _ => false
     (match r1.2 with | .err .assertion => true | _ => false) = true ∧
     (match r2.2 with | .err .attribute => true | _ => false) = true ∧
-    (match get w, get r1.1, get r2.1 with
-      | some (.leaf (some 0)), some (.leaf (some 4)), some (.leaf (some 4)) => true
-      | _, _, _ => false) = true := by
+    (match r3.2 with | .err .assertion => true | _ => false) = true ∧
+    (match r4.2 with | .ok => true | _ => false) = true ∧
+    same r1.1 w 0 = true ∧ same r2.1 w 0 = true ∧ same r3.1 w 1 = true ∧ same r4.1 w 0 = false := by
   decide +kernel
 
 /-! ### reads after writes -/
@@ -505,8 +625,11 @@ example :
 /- FULL: the same for histories that also contain `update` (any notation), assignments of dicts / None to sub-objects and
    `display.style.reset()` on the defaults, and for the objects' own styles.  Those operations re-build sub-objects from
    their dictionaries; that this changes no other leaf needs `construct` to be idempotent on every reached state
-   (stability preserved by every operation), which is proved for the states at import time only and observed by the
-   `sstate` stream (375 reached states per quick run).  Proved here: histories in which `magpylib.defaults` itself is
+   (stability preserved by every operation).  Its first half is proved below (`reachable_states_wellformed`: every
+   reached state is schema-shaped and every stored leaf a fixpoint of its validator); the second half — on such a state
+   `construct` rebuilds the tree identically, which needs `magic_to_dict` = identity on well-keyed trees and the
+   constructor's keyword reordering — is not; stability is proved for the states at import time and observed by the
+   `sstate` stream on every final state.  Proved here: histories in which `magpylib.defaults` itself is
    changed by assignments to plain properties at any depth (accepted or rejected), `reset()` and reads — with ARBITRARY
    operations on the objects in between. -/
 
@@ -696,5 +819,162 @@ example :
     (match (annot (init [1]) (ops ++ [.reset])).foldl (effStep q ((leafVid props0 q).getD 0)) .keep with | .init => true | _ => false) = true ∧
     (match read0 (exec tables classes defaults (init [1]) ops) q with | .ok (.leaf (some 4)) => true | _ => false) = true := by
   decide +kernel
+
+/-! ### an invariant of every history: all states are well formed -/
+
+/-- every object of the world is well formed for its class: its tree has exactly the non-alias properties of the class
+as keys, in `dir()` order, recursively for every sub-object, and every stored leaf value is a fixpoint of its own
+validator (assigning it again stores it again) -/
+def WFW (w : World) : Prop :=
+  ∀ (i : Nat) (o : Obj), w[i]? = some o → ∃ c, classes[o.cls]? = some c ∧ wfKids tables c.schema.props o.tree = true
+
+/-- computed over the regenerated validator table (22 rows × 86 values): whatever a setter stores, it stores unchanged
+when it is assigned again — None, every panel value, the dict case -/
+theorem validators_idempotent : idemB tables = true := by
+  decide +kernel
+
+/-- computed over the 37 regenerated classes: property names pairwise different in every class, alias targets are
+paths of length ≥ 2, every class can be instantiated without arguments -/
+def isObjSchema : Schema → Bool
+  | .obj _ _ _ _ _ => true
+  | _ => false
+
+theorem classes_wellformed :
+    classes.all (fun c => okSchema c.schema && isOkD (newTree tables c) && isObjSchema c.schema) = true ∧
+    wfKids tables props0 resetResult.1 = true := by
+  decide +kernel
+
+theorem okProps_of_okSchema {s : Schema} (h : okSchema s = true) : okProps s.props = true := by
+  cases s with
+  | leaf v => rfl
+  | alias t => rfl
+  | obj ps a b c d =>
+    rw [okSchema] at h
+    simp only [Bool.and_eq_true] at h
+    exact h.1.1
+
+theorem class_ok {c : ClassInfo} (hc : c ∈ classes) : okProps c.schema.props = true := by
+  have := List.all_eq_true.mp classes_wellformed.1 c hc
+  simp only [Bool.and_eq_true] at this
+  exact okProps_of_okSchema this.1.1
+
+theorem onObj_wfw (f : List (Key × Schema) → List Str → Dict → Dict × Except Kind Unit)
+    (hf : ∀ ps os c, okProps ps = true → wfKids tables ps c = true → wfKids tables ps (f ps os c).1 = true)
+    (w : World) (i : Nat) (h : WFW w) : WFW (onObj classes w i f).1 := by
+  unfold onObj
+  cases hw : w[i]? with
+  | none => exact h
+  | some o =>
+    simp only []
+    cases hc : classes[o.cls]? with
+    | none => exact h
+    | some c =>
+      simp only []
+      intro j o' hj
+      by_cases hji : j = i
+      · subst hji
+        rw [setTree_getElem?_self w j _ o hw] at hj
+        injection hj with hj
+        subst hj
+        obtain ⟨c', hc', hwf⟩ := h j o hw
+        rw [hc] at hc'
+        injection hc' with hc'
+        subst hc'
+        exact ⟨c, hc, hf _ _ _ (class_ok (List.mem_of_getElem? hc)) hwf⟩
+      · rw [setTree_getElem?_ne w i j _ hji] at hj
+        exact h j o' hj
+
+theorem wfw_step (w : World) (op : Op) (h : WFW w) : WFW (step tables classes defaults w op).1 := by
+  have hT := validators_idempotent
+  cases op with
+  | update i path arg kwargs mt rno =>
+    exact onObj_wfw _ (fun ps os c hok hw => atPath_wf tables _
+      (fun ps' os' c' hok' hw' => updateObj_wf tables hT ps' hok' os' c' arg kwargs mt rno hw') path ps os c hok hw) w i h
+  | setattr i path name val =>
+    refine onObj_wfw _ (fun ps os c hok hw => atPath_wf tables _ (fun ps' os' c' hok' hw' => ?_) path ps os c hok hw) w i h
+    cases hs : setAttr tables ps' os' c' name val with
+    | ok c2 => simp only [hs]; exact setAttr_wf tables hT ps' hok' os' c' name val c2 hw' hs
+    | error e => simp only [hs]; exact hw'
+  | reset =>
+    refine onObj_wfw _ (fun ps os c hok hw => ?_) w 0 h
+    unfold resetDefaults
+    cases hs : setAttr tables ps os c (.str "display".toList) (.leaf none) with
+    | error e => exact hw
+    | ok c1 => exact updateObj_wf tables hT ps hok os c1 _ _ _ _ (setAttr_wf tables hT ps hok os c _ _ c1 hw hs)
+  | resetStyle =>
+    refine onObj_wfw _ (fun ps os c hok hw => ?_) w 0 h
+    unfold resetStyle
+    split
+    · exact atPath_wf tables _ (fun ps' os' c' hok' hw' => updateObj_wf tables hT ps' hok' os' c' _ _ _ _ hw') _ ps os c hok hw
+    · exact hw
+  | setStyle i val =>
+    by_cases hi : i = 0
+    · simp only [step, hi, if_true]; exact h
+    · simp only [step, hi, if_false]
+      cases val with
+      | leaf v =>
+        cases v with
+        | none => exact onObj_wfw _ (fun ps os c hok hw => updateObj_wf tables hT ps hok os c _ _ _ _ hw) w i h
+        | some n => exact h
+      | node kv => exact onObj_wfw _ (fun ps os c hok hw => updateObj_wf tables hT ps hok os c _ _ _ _ hw) w i h
+  | setStyleObj i j => rw [style_object_assignment_ignored]; exact h
+  | read i p => rw [step_read_world]; exact h
+
+theorem wfw_init (cls : List Nat) (hcls : ∀ ci ∈ cls, ci < classes.length) : WFW (init cls) := by
+  have hT := validators_idempotent
+  obtain ⟨bases, hb⟩ := classes_zero
+  intro i o hi
+  cases i with
+  | zero =>
+    rw [init_zero] at hi
+    injection hi with hi
+    have hcls0 : o.cls = 0 := by rw [← hi]
+    have htree : o.tree = resetResult.1 := by rw [← hi]
+    refine ⟨⟨"DefaultSettings".toList, bases, cDefaultSettings⟩, by rw [hcls0]; exact hb, ?_⟩
+    rw [htree]
+    simp only [props0_eq]
+    exact classes_wellformed.2
+  | succ j =>
+    unfold init initWorld at hi
+    rw [hb] at hi
+    simp only [List.cons_append, List.nil_append, List.getElem?_cons_succ, List.getElem?_map] at hi
+    cases hj : cls[j]? with
+    | none => rw [hj] at hi; cases hi
+    | some ci =>
+      rw [hj] at hi
+      simp only [Option.map_some, Option.some.injEq] at hi
+      have hlt : ci < classes.length := hcls ci (List.mem_of_getElem? hj)
+      have hc : classes[ci]? = some classes[ci] := List.getElem?_eq_getElem hlt
+      subst hi
+      refine ⟨classes[ci], hc, ?_⟩
+      simp only [hc]
+      have hmem : classes[ci] ∈ classes := List.getElem_mem hlt
+      have hfact := List.all_eq_true.mp classes_wellformed.1 _ hmem
+      simp only [Bool.and_eq_true] at hfact
+      cases hn : newTree tables classes[ci] with
+      | error e => rw [hn] at hfact; cases hfact.1.2
+      | ok t =>
+        simp only []
+        unfold newTree at hn
+        cases hsch : classes[ci].schema with
+        | leaf v => rw [hsch] at hfact; cases hfact.2
+        | alias tg => rw [hsch] at hfact; cases hfact.2
+        | obj ps a b ct vk =>
+          rw [hsch] at hn hfact
+          exact construct_wf tables hT ps a b ct vk hfact.1.1 [] t hn
+
+/-- **C20, an invariant of every history (stability's foundation).**  After ANY history of operations — updates in any
+notation with any flags on any sub-object, assignments of values, dicts, None or strings, accepted or rejected, resets —
+every object (the defaults and every style) is well formed: its tree has exactly the class's non-alias properties as
+keys in `dir()` order at every level, and every stored leaf is a value its validator accepts and stores unchanged. -/
+theorem reachable_states_wellformed (cls : List Nat) (hcls : ∀ ci ∈ cls, ci < classes.length) :
+    ∀ (ops : List Op), WFW (exec tables classes defaults (init cls) ops) := by
+  have key : ∀ (ops : List Op) (w : World), WFW w → WFW (exec tables classes defaults w ops) := by
+    intro ops
+    induction ops with
+    | nil => intro w h; exact h
+    | cons op t ih => intro w h; rw [exec_cons]; exact ih _ (wfw_step w op h)
+  intro ops
+  exact key ops _ (wfw_init cls hcls)
 
 end MagpyVerif.C20c
